@@ -6,11 +6,25 @@ import os
 VERIF = os.path.dirname(os.path.dirname(os.path.abspath(__file__)))
 
 NA = {
-    "C02": "the sampled pmf (BTPE/H2PE squeeze constants, float recurrences) is numerical; not decidable from code shape (DESIGN.md 5/C02)",
 }
 PENDING = "check under construction in this session (see DESIGN.md 10 build order)"
 
 CHECKS = {
+    "C02": dict(
+        category="other",
+        text="Agreement of discrete samplers with the reference algorithm they cite, decided from the MIR by computer algebra with the machinery of C01 — "
+             "not the pmf itself. Covered so far: Zeta (Devroye's rejection: proposal floor(U^(-1/(s-1))), b = 2^(s-1), the acceptance test, the "
+             "infinite-proposal return) and Zipf (normaliser t and q on the three parameter regimes of Zipf::new, the inverse CDF of the piecewise "
+             "envelope, proposal floor(B) + 1, the acceptance ratio x^-s resp. x^-s B^s). Every comparison is a test of the reference, the decision "
+             "functions agree on every feasible truth assignment, returned terms and derived constants are identical over the reals.",
+        design_ref="DESIGN.md 5/C02 and 11.9",
+        note="PARTIAL: Binomial (BINV, BTPE), Poisson (Knuth, Ahrens-Dieter), Geometric, StandardGeometric and Hypergeometric (HIN, H2PE) are NOT examined by this "
+             "check (their loops carry state between iterations or are nested; listed in the evidence notes) — for those families nothing of C02 is decided. "
+             "NOT decided anywhere: the probability mass function (that the references have the documented pmf is a cited theorem), the numerical "
+             "accuracy of the acceptance test for huge proposals (the Zeta(1.05) deviation named in the property is of that kind).",
+        technique="decision-structure extraction from rustc MIR + computer-algebra identity and truth-table comparison against transcribed reference algorithms (as C01)",
+        engine="rdx+E4+sympy",
+    ),
     "C01": dict(
         category="other",
         text="Agreement of each continuous sampler with the reference algorithm it cites, decided from the MIR by computer algebra — not the law itself. "
